@@ -10,6 +10,7 @@ Oracle: refmodel (independent chords, slant optical depth, depth integral) + met
 """
 import numpy as np
 
+from vmon import own
 from vmon import faults
 from vmon import refmodel as R
 from vmon import taps, world
@@ -32,7 +33,8 @@ BUDGET = {
                  dict(name='nojit', env={'NUMBA_DISABLE_JIT': '1'}, shards=4, cases={'abs': 150, 'mono': 30, 'rerun': 60, 'several': 30})],
 }
 REQUIRED = dict(monitors=['chords', 'exp(-tau)', 'depth', 'depth>=bare', 'depth<=opaque', 'transparent==bare',
-                          'scaling-monotone', 'early-exit-licensed', 'chords-sum-to-full-chord'],
+                          'scaling-monotone', 'early-exit-licensed', 'chords-sum-to-full-chord',
+                          'earlier-result-stays-as-returned'],
                 classes=['method:new', 'method:old', 'magnitude:transparent', 'magnitude:saturating',
                          'early-exit-observed', 'contrib:CIA', 'contrib:Rayleigh', 'contrib:SimpleClouds',
                          'contrib:FlatMie', 'contrib:LeeMie', 'nlayers:2', 'rerun:evaluated-after-change',
@@ -186,6 +188,7 @@ def run_model(ctx, model, build=True):
     snap['wn'] = np.array(wn)
     snap['depth'] = np.array(depth, dtype=float)
     snap['ret_trans'] = np.array(trans, dtype=float)
+    snap['raw'] = (wn, depth, trans)            # the very objects the call returned (for the ownership ledger)
     return snap
 
 
@@ -395,6 +398,11 @@ def wl_rerun(ctx, rng):
     if snap is None:
         return
     oracle(ctx, snap, spec)
+    # the caller keeps what each evaluation returned while the same model is evaluated again (a sweep appending its
+    # spectra to a list): an earlier result must stay what it was
+    led = own.Ledger(ctx, 'rerun')
+    for a_, l_ in zip(snap['raw'], ('grid', 'depth', 'transmittance')):
+        led.keep(a_, l_ + '[0]')
     changes_all = []
     originals = []
     for k in range(int(rng.integers(1, 4))):
@@ -437,11 +445,15 @@ def wl_rerun(ctx, rng):
         s2['ret_trans'] = np.array(trans, dtype=float)
         ctx.observe('rerun:evaluated-after-change')
         oracle(ctx, s2, spec)
+        led.settle('evaluation %d of the same model' % (k + 1))
+        for a_, l_ in zip((wn, depth, trans), ('grid', 'depth', 'transmittance')):
+            led.keep(a_, '%s[%d]' % (l_, k + 1))
     for m in originals:
         so = run_model(ctx, m, build=False)
         if so is not None and np.all(np.isfinite(so['zb'])) and so['zb'][-1] <= 2.0 * so['Rp']:
             ctx.observe('rerun:original-judged-after-its-copy-was-used')
             oracle(ctx, so, spec)
+    led.settle('all evaluations')
     ctx.sig('rerun', spec['nlayers'], spec['new_method'], spec['magnitude'], tuple(n for ch in changes_all for n, _, _ in ch),
             round(spec['planet_mass'], 6))
     ctx.sample({'workload': 'rerun', 'world': world.spec_summary(spec), 'changes': changes_all})
